@@ -106,7 +106,6 @@ Definition nonvacuous_statement : Prop :=
 
 Theorem nonvacuous : nonvacuous_statement.
 Proof.
-  repeat split; try apply ex_wfp; try apply ex_b; try apply ex_b2; try apply ex_merge.
-  - exact ex_possible.
-  - exact ex_impossible.
+  exact (conj ex_wfp (conj ex_b (conj ex_b2 (conj ex_possible (conj ex_impossible (conj ex_merge
+        (conj ex_wf (conj ex_belief (conj ex_check (conj ex_check_b2 ex_check_b)))))))))).
 Qed.
